@@ -31,7 +31,15 @@ type R struct {
 	count int
 }
 
-func New(env *hx.Env, histLen int) *R { return &R{env: env, Len: histLen} }
+// New needs only the environment (it is also registered in mods/all); NewLen additionally
+// makes the generator end every history of histLen operations with query_all.
+func New(env *hx.Env) *R { return &R{env: env} }
+
+func NewLen(env *hx.Env, histLen int) *R { return &R{env: env, Len: histLen} }
+
+// State is the full canonical projection of the module state: counter, number of records and
+// the whole record store in key order.
+func (r *R) State(ctx sdk.Context) string { return r.counts(ctx) + " recs=" + r.dump(ctx) }
 
 func (r *R) Module() string { return "record" }
 
@@ -169,7 +177,7 @@ func (r *R) genMsg(g *hx.Rng) string {
 
 func (r *R) Gen(ctx sdk.Context, g *hx.Rng) string {
 	r.count++
-	if r.count >= r.Len {
+	if r.Len > 0 && r.count >= r.Len {
 		return "record query_all"
 	}
 	switch g.Pick(12, 4, 1, 1, 2) {
